@@ -518,4 +518,149 @@ Proof.
   - intros [Hb Ha]. exact (proj2 (proj2 (back_end_complete _ _ _ _ Hc Hb Ha (clean_tree_errors _ Hc)))).
 Qed.
 
+(* ------------------------------------------------------------------------------------------ *)
+(* build never removes an error, on ARBITRARY trees: if its result carries no error, it returned its argument
+   (names are only replaced through ident_flag, pg_info only through info_append, everything else is copied) *)
+
+Lemma get_data_type_te_same l g c te : forall te' dt,
+  get_data_type_te l g c te = ROk (te', dt) -> texpr_errors te' = [] -> te' = te.
+Proof.
+  induction te as [i | size inf | size b off inf IH] using texpr_ind'; intros te' dt H Hn.
+  - cbn [get_data_type_te] in H.
+    destruct (lt_lookup l g (id_val i)) as [[te0|p|ve|ve]|]; try (injection H as <- _; reflexivity);
+      binds H i' E; injection H as <- _; exfalso; exact (ident_flag_errs _ _ _ E Hn).
+  - cbn [get_data_type_te] in H. injection H as <- _. reflexivity.
+  - cbn [get_data_type_te] in H. bindp H b' bt E. injection H as <- _.
+    cbn [texpr_errors] in Hn. apply app_eq_nil in Hn. destruct Hn as [_ Hn]. apply shift_es_nil in Hn.
+    rewrite (IH _ _ E Hn). reflexivity.
+Qed.
+
+Lemma get_data_type_same l g c ty ty' dt :
+  get_data_type l g c ty = ROk (ty', dt) -> opt_texpr_errors ty' = [] -> ty' = ty.
+Proof.
+  destruct ty as [[te o]|]; cbn [get_data_type]; [|intros [= <- _] _; reflexivity]. intros H Hn.
+  bindp H te' dt' E. injection H as <- _. cbn [opt_texpr_errors] in Hn. apply shift_es_nil in Hn.
+  rewrite (get_data_type_te_same _ _ _ _ _ _ E Hn). reflexivity.
+Qed.
+
+Lemma build_parameter_same G pname L p p' L' oe :
+  build_parameter p pname G L = ROk (p', L', oe) -> paramdecl_errors (fst p') = [] -> p' = p.
+Proof.
+  intros H Hn. destruct p as [pd off].
+  destruct pd as [doc is_ref [name|] ty inf | inf]; cbn [build_parameter] in H;
+    [| injection H as <- _ _; reflexivity | injection H as <- _ _; reflexivity].
+  bindp H ty' dt E. binds H name1 E1. unfold enter in H.
+  destruct (lookup L (id_val name)) as [old|]; binds H name2 E2; injection H as <- _ _;
+    cbn [fst paramdecl_errors opt_ident_errors] in Hn; apply app_eq_nil in Hn; destruct Hn as [_ Hn];
+    apply app_eq_nil in Hn; destruct Hn as [Hname Hty].
+  - exfalso. exact (ident_flag_errs _ _ _ E2 Hname).
+  - injection E2 as ->. rewrite (get_data_type_same _ _ _ _ _ _ E Hty).
+    assert (Hx : name2 = name).
+    { destruct dt as [d|]; [destruct (negb (is_primitive d) && negb is_ref)|].
+      - exfalso. exact (ident_flag_errs _ _ _ E1 Hname).
+      - injection E1 as ->. reflexivity.
+      - injection E1 as ->. reflexivity. }
+    rewrite Hx. reflexivity.
+Qed.
+
+Lemma build_parameters_same G pname ps : forall L ps' L' es,
+  build_parameters ps pname G L = ROk (ps', L', es) ->
+  flat_map (fun x => shift_es (snd x) (paramdecl_errors (fst x))) ps' = [] -> ps' = ps.
+Proof.
+  induction ps as [|p r IH]; intros L ps' L' es H Hn; [injection H as <- _ _; reflexivity|].
+  cbn [build_parameters] in H. bindt H p' L1 oe E. bindt H r' L2 es' E0. injection H as <- _ _.
+  cbn [flat_map] in Hn. apply app_eq_nil in Hn. destruct Hn as [Hp Hr]. apply shift_es_nil in Hp.
+  rewrite (build_parameter_same _ _ _ _ _ _ _ E Hp), (IH _ _ _ _ E0 Hr). reflexivity.
+Qed.
+
+Lemma build_variable_same G pname L v v' L' :
+  build_variable v pname G L = ROk (v', L') -> vardecl_errors (fst v') = [] -> v' = v.
+Proof.
+  intros H Hn. destruct v as [vd off].
+  destruct vd as [doc [name|] ty inf | inf]; cbn [build_variable] in H;
+    [| injection H as <- _; reflexivity | injection H as <- _; reflexivity].
+  bindp H ty' dt E. unfold enter in H.
+  destruct (lookup L (id_val name)) as [old|]; binds H name' E1; injection H as <- _;
+    cbn [fst vardecl_errors opt_ident_errors] in Hn; apply app_eq_nil in Hn; destruct Hn as [_ Hn];
+    apply app_eq_nil in Hn; destruct Hn as [Hname Hty].
+  - exfalso. exact (ident_flag_errs _ _ _ E1 Hname).
+  - injection E1 as ->. rewrite (get_data_type_same _ _ _ _ _ _ E Hty). reflexivity.
+Qed.
+
+Lemma build_variables_same G pname vs : forall L vs' L',
+  build_variables vs pname G L = ROk (vs', L') ->
+  flat_map (fun x => shift_es (snd x) (vardecl_errors (fst x))) vs' = [] -> vs' = vs.
+Proof.
+  induction vs as [|v r IH]; intros L vs' L' H Hn; [injection H as <- _; reflexivity|].
+  cbn [build_variables] in H. bindp H v' L1 E. bindp H r' L2 E0. injection H as <- _.
+  cbn [flat_map] in Hn. apply app_eq_nil in Hn. destruct Hn as [Hv Hr]. apply shift_es_nil in Hv.
+  rewrite (build_variable_same _ _ _ _ _ _ E Hv), (IH _ _ _ E0 Hr). reflexivity.
+Qed.
+
+Lemma build_gdecl_same G off d d' G' : build_gdecl d G off = ROk (d', G') -> gdecl_errors d' = [] -> d' = d.
+Proof.
+  intros H Hn. destruct d as [td | pd | inf]; cbn [build_gdecl] in H; [| |injection H as <- _; reflexivity].
+  - bindp H td' G1 E. injection H as <- _. unfold build_typedecl in E.
+    destruct (td_name td) as [name|] eqn:Hname; [|injection E as <- _; reflexivity].
+    cbn [gdecl_errors] in Hn. unfold typedecl_errors in Hn.
+    destruct (text_eqb (id_val name) s_main).
+    + binds E name' E1. injection E as <- _. exfalso. cbn [td_info td_name td_ty opt_ident_errors] in Hn.
+      apply app_eq_nil in Hn. destruct Hn as [_ Hn]. apply app_eq_nil in Hn. destruct Hn as [Hn _].
+      exact (ident_flag_errs _ _ _ E1 Hn).
+    + bindp E ty' dt E1. unfold enter in E.
+      destruct (lookup G (id_val name)) as [old|]; binds E name' E2; injection E as <- _;
+        cbn [td_info td_name td_ty opt_ident_errors] in Hn; apply app_eq_nil in Hn; destruct Hn as [_ Hn];
+        apply app_eq_nil in Hn; destruct Hn as [Hn Hty].
+      * exfalso. exact (ident_flag_errs _ _ _ E2 Hn).
+      * injection E2 as ->. rewrite (get_data_type_same _ _ _ _ _ _ E1 Hty), <- Hname, typedecl_eta. reflexivity.
+  - bindp H pd' G1 E. injection H as <- _. unfold build_procdecl in E.
+    destruct (pd_name pd) as [name|] eqn:Hname; [|injection E as <- _; reflexivity].
+    bindt E params' L1 parameters E1. bindp E vars' L2 E2. unfold enter in E.
+    cbn [gdecl_errors] in Hn. unfold procdecl_errors in Hn.
+    destruct (lookup G (id_val name)) as [old|]; binds E name' E3; injection E as <- _;
+      cbn [pd_info pd_name pd_params pd_vars pd_stmts opt_ident_errors] in Hn;
+      apply app_eq_nil in Hn; destruct Hn as [_ Hn]; apply app_eq_nil in Hn; destruct Hn as [Hn Hrest].
+    + exfalso. exact (ident_flag_errs _ _ _ E3 Hn).
+    + injection E3 as ->. apply app_eq_nil in Hrest. destruct Hrest as [Hp Hrest].
+      apply app_eq_nil in Hrest. destruct Hrest as [Hv _].
+      rewrite (build_parameters_same _ _ _ _ _ _ _ E1 Hp), (build_variables_same _ _ _ _ _ _ E2 Hv), <- Hname, procdecl_eta.
+      reflexivity.
+Qed.
+
+Lemma build_gdecls_same offset ds : forall G ds' G',
+  build_gdecls ds G offset = ROk (ds', G') -> gdecls_errors ds' = [] -> ds' = ds.
+Proof.
+  induction ds as [|[d off] r IH]; intros G ds' G' H Hn; [injection H as <- _; reflexivity|].
+  cbn [build_gdecls] in H. bindp H d' G1 E. bindp H r' G2 E0. injection H as <- _.
+  unfold gdecls_errors in Hn. cbn [flat_map fst snd] in Hn. apply app_eq_nil in Hn. destruct Hn as [Hd Hr].
+  apply shift_es_nil in Hd. rewrite (build_gdecl_same _ _ _ _ _ E Hd), (IH _ _ _ E0 Hr). reflexivity.
+Qed.
+
+Theorem build_unchanged p p1 G : build_res p = ROk (p1, G) -> tree_errors p1 = [] -> p1 = p.
+Proof.
+  intros H Hn. unfold build_res, build_program in H. bindp H ds' G' E.
+  destruct (lookup G' s_main) as [[te|main]|].
+  - discriminate H.
+  - destruct (pe_params main) as [|q qs].
+    + injection H as <- _. unfold tree_errors in Hn. cbn [pg_info pg_decls] in Hn.
+      apply app_eq_nil in Hn. destruct Hn as [_ Hn]. rewrite (build_gdecls_same _ _ _ _ _ E Hn). apply program_eta.
+    + binds H e Ee. injection H as <- _. exfalso. unfold tree_errors in Hn. cbn [pg_info] in Hn.
+      apply app_eq_nil in Hn. destruct Hn as [Hn _]. exact (info_append_errs _ _ Hn).
+  - injection H as <- _. exfalso. unfold tree_errors in Hn. cbn [pg_info] in Hn.
+    apply app_eq_nil in Hn. destruct Hn as [Hn _]. exact (info_append_errs _ _ Hn).
+Qed.
+
+(* the back end never removes an error (no cleanliness assumed) *)
+Theorem build_errors_back : forall p p1 G, build_res p = ROk (p1, G) -> tree_errors p1 = [] -> tree_errors p = [].
+Proof. intros p p1 G H Hn. rewrite <- (build_unchanged _ _ _ H Hn). exact Hn. Qed.
+
+Theorem back_end_errors_back : forall p p1 G p2,
+  build_res p = ROk (p1, G) -> analyze_res p1 G = ROk p2 -> tree_errors p2 = [] -> tree_errors p = [].
+Proof.
+  intros p p1 G p2 Hb Ha Hn. pose proof (analyze_unchanged _ _ _ Ha Hn) as Hp2. subst p2.
+  exact (build_errors_back _ _ _ Hb Hn).
+Qed.
+
+Print Assumptions build_errors_back.
+Print Assumptions back_end_errors_back.
 Print Assumptions back_end_complete.
